@@ -186,6 +186,18 @@ func checkRecipe(base *recipe.File, dec *recipe.Decisions, seed uint64) (int, []
 	if len(placed) == 0 {
 		return 0, nil, nil
 	}
+	// null-like items next to the comments (after a commented last item, between comments):
+	// they vanish (C13), so the code tokens must still be those of the comment-free build
+	nstate := seed ^ 0xA5A5A5A5
+	ndec := &recipe.Decisions{Draw: func(n int) int {
+		nstate += 0x9E3779B97F4A7C15
+		z := nstate
+		z = (z ^ (z >> 30)) * 0xBF58476D1CE4E5B9
+		z = (z ^ (z >> 27)) * 0x94D049BB133111EB
+		z ^= z >> 31
+		return int(z % uint64(n))
+	}}
+	with, _ = mutate.InjectNulls(with, ndec, 4)
 	for _, mode := range []string{"NoFormat", "formatted"} {
 		a, b := base, with
 		if mode == "NoFormat" {
@@ -320,6 +332,119 @@ func checkGen(c genCase) error {
 				if got[k] != wants[k] {
 					return fmt.Errorf("the comments found in the output differ from the texts given: found %q, want %q\n%s", got[k], wants[k], outB)
 				}
+			}
+		}
+	}
+	return nil
+}
+
+// ---- (a'') every text length ----
+
+type lenCase struct {
+	Len   int    `json:"len"`
+	Shape string `json:"shape"` // line | block | block-nl
+	Host  string `json:"host"`  // Block | Defs | Struct | Interface | File
+	Pos   string `json:"pos"`   // end-of-last-item | own-last-item
+}
+
+func (c lenCase) text() string {
+	const alphabet = "abcdefghijklmnopqrstuvwxyz {}();\"`0123456789"
+	b := make([]byte, c.Len)
+	for i := range b {
+		b[i] = alphabet[(i*7+c.Len)%len(alphabet)]
+	}
+	switch c.Shape {
+	case "block":
+		if c.Len >= 3 {
+			b[c.Len/2] = '\n'
+		} else {
+			return string(b) + "\nx"
+		}
+	case "block-nl":
+		if c.Len >= 1 {
+			b[c.Len-1] = '\n'
+		} else {
+			return "\n"
+		}
+	}
+	return sanitize(string(b))
+}
+
+func checkLen(c lenCase) error {
+	text := c.text()
+	cm := recipe.S().C("Comment", text)
+	item := func(n int) *recipe.Node { return recipe.Id(fmt.Sprintf("x%d", n)).C("Int") }
+	build := func(with bool) *recipe.File {
+		a, b := item(1), item(2)
+		items := []*recipe.Node{a, b}
+		if with {
+			if c.Pos == "own-last-item" {
+				items = append(items, cm)
+			} else {
+				b.Calls = append(b.Calls, recipe.Call{Fn: "Comment", Str: []recipe.Text{recipe.Text(text)}})
+			}
+		}
+		var decl *recipe.Node
+		switch c.Host {
+		case "Block":
+			for i, it := range items {
+				if len(it.Calls) > 0 && it.Calls[0].Fn == "Id" {
+					items[i] = recipe.S().C("Var").Then(it)
+				}
+			}
+			decl = recipe.S().C("Func").C("Id", "f").C("Params").C("Block", items)
+		case "Defs":
+			decl = recipe.S().C("Var").C("Defs", items)
+		case "Struct":
+			decl = recipe.S().C("Type").C("Id", "T").C("Struct", items)
+		case "Interface":
+			m := []*recipe.Node{recipe.Id("A").C("Params"), recipe.Id("B").C("Params")}
+			if with {
+				if c.Pos == "own-last-item" {
+					m = append(m, cm)
+				} else {
+					m[1].Calls = append(m[1].Calls, recipe.Call{Fn: "Comment", Str: []recipe.Text{recipe.Text(text)}})
+				}
+			}
+			decl = recipe.S().C("Type").C("Id", "T").C("Interface", m)
+		default: // File
+			f := &recipe.File{Ctor: "NewFile", Args: []recipe.Text{"p"}}
+			for _, it := range items {
+				if len(it.Calls) > 0 && it.Calls[0].Fn == "Id" {
+					it = recipe.S().C("Var").Then(it)
+				}
+				f.Body = append(f.Body, it)
+			}
+			f.Body = append(f.Body, recipe.S().C("Var").C("Id", "after").C("Int"))
+			return f
+		}
+		return &recipe.File{Ctor: "NewFile", Args: []recipe.Text{"p"}, Body: []*recipe.Node{decl, recipe.S().C("Var").C("Id", "after").C("Int")}}
+	}
+	for _, mode := range []string{"NoFormat", "formatted"} {
+		a, b := build(false), build(true)
+		if mode == "NoFormat" {
+			a, b = nofmt(a), nofmt(b)
+		}
+		outA, err := rt.Render(&recipe.Builder{}, a)
+		if err != nil {
+			return fmt.Errorf("harness: base does not render: %v", err)
+		}
+		outB, err := rt.Render(&recipe.Builder{}, b)
+		if err != nil {
+			return fmt.Errorf("%s: with a %d-byte comment the File no longer renders: %s", mode, len(text), rt.Short(err.Error(), 500))
+		}
+		codeA, _, _ := scan(outA, true)
+		codeB, cmtB, err := scan(outB, true)
+		if err != nil {
+			return fmt.Errorf("%s: output with the %d-byte comment does not scan: %v\n%s", mode, len(text), err, outB)
+		}
+		if ok, why := sameCode(codeA, codeB); !ok {
+			return fmt.Errorf("%s: a %d-byte comment changed the code's token sequence: %s\n%s", mode, len(text), why, outB)
+		}
+		if mode == "NoFormat" {
+			want := strings.ReplaceAll(mutate.Rendered(text), "\r", "")
+			if len(cmtB) != 1 || strings.ReplaceAll(cmtB[0], "\r", "") != want {
+				return fmt.Errorf("the %d-byte text appears as %q, want %q", len(text), cmtB, want)
 			}
 		}
 	}
@@ -536,7 +661,7 @@ func genFileComment(t *rapid.T, marker string) string {
 func TestC15(t *testing.T) {
 	r := hx.Start(t, "C15")
 	defer r.Finish(t)
-	r.Rule("(a) comment policy on real programs (corpus third / all files) and on rapid-generated plausible programs: comments as items of their own before/between/after items and at the end of items of every Block, Defs, Struct, Interface, case body and the File, one comment per output line, texts over letters, spaces, tabs, CR, braces, quotes, backquotes, mid-text // and /*, code fragments, unicode, one-line and multi-line; containment = go/scanner code-token sequence equal with and without the comments (NoFormat and formatted), preservation = the comments of the NoFormat output are exactly // text or /*\\ntext\\n*/ in order; (b) rapid-generated file-level settings: 0..4 header comments, 0..4 package comments (automatic and well-formed raw styles), arbitrary canonical paths; non-trivial = text with one of {}\"`;() or a newline or a mid-text comment marker at the end of the last item of its group; distinct by case")
+	r.Rule("(a) comment policy on real programs (corpus third / all files) and on rapid-generated plausible programs: comments as items of their own before/between/after items and at the end of items of every Block, Defs, Struct, Interface, case body and the File, one comment per output line, texts over letters, spaces, tabs, CR, braces, quotes, backquotes, mid-text // and /*, code fragments, unicode, one-line and multi-line; containment = go/scanner code-token sequence equal with and without the comments (NoFormat and formatted), preservation = the comments of the NoFormat output are exactly // text or /*\\ntext\\n*/ in order; null-like items are injected next to the comments as well; every text length 0..300 (thorough 0..1100) in three shapes at the end of the last item / as last item of each host; (b) rapid-generated file-level settings: 0..4 header comments, 0..4 package comments (automatic and well-formed raw styles), arbitrary canonical paths; non-trivial = text with one of {}\"`;() or a newline or a mid-text comment marker at the end of the last item of its group; distinct by case")
 	r.Assume("comment texts do not start with // or /*, do not contain */, and are valid UTF-8 without NUL or BOM (other text cannot occur in a Go file); comment text is compared on NoFormat output only, because gofmt rewrites doc comments; an end-of-item comment is never put on a case clause with a non-empty body (it would share a line with the comment of the clause's last statement)")
 
 	ckP := hx.Check[progCase]{Name: "program_comment_policy", Fn: checkProg}
@@ -607,6 +732,34 @@ func TestC15(t *testing.T) {
 			}(i, f)
 		}
 		wg.Wait()
+	}
+
+	ckL := hx.Check[lenCase]{Name: "text_length_sweep", Fn: checkLen}
+	if !hx.Replay(r, ckL) {
+		maxLen, idx := 300, 0
+		if r.Thorough() {
+			maxLen = 1100
+		}
+		for l := 0; l <= maxLen; l++ {
+			for _, shape := range []string{"line", "block", "block-nl"} {
+				for hi, host := range []string{"Block", "Defs", "Struct", "Interface", "File"} {
+					for pi, pos := range []string{"end-of-last-item", "own-last-item"} {
+						idx++
+						// every length x shape is met in every tier; host and position rotate in the quick tier
+						if !r.Thorough() && (l+hi+pi+int(r.Seed))%5 != 0 {
+							continue
+						}
+						if r.Thorough() && !r.Mine(idx) {
+							continue
+						}
+						c := lenCase{Len: l, Shape: shape, Host: host, Pos: pos}
+						hx.One(r, ckL, c)
+						r.NonTrivial(fmt.Sprintf("%+v", c))
+					}
+				}
+			}
+		}
+		r.Exhaustive(fmt.Sprintf("comment text lengths 0..%d x {one-line, multi-line, multi-line with trailing newline}", maxLen))
 	}
 
 	hx.Rapid(r, t, hx.Check[genCase]{Name: "generated_program_comments", Fn: checkGen}, r.N(800, 8000), func(rt2 *rapid.T) genCase {
